@@ -1414,13 +1414,13 @@ def c09(ctx):
     # program level: every configuration computes the same function
     cases = mpcl_cases(ctx, "mpcl-gen-c09", "{3, 6, 8}", 5, 1500 if thorough else 150,
                        kinds='{"const", "lit", "bin", "cmp", "logic", "neg", "shift", "cast", "if", "ifnest", "loop", "call"}',
-                       limit=1500 if thorough else 70)
+                       limit=1000 if thorough else 70)
     cases += mpcl_cases(ctx, "mpcl-gen-c09w", "{4, 7, 13}", 4, 600 if thorough else 60, kinds='{"bin", "lit", "cmp", "cast", "if", "shift"}',
-                        limit=600 if thorough else 30)
+                        limit=400 if thorough else 30)
     cf = os.path.join(ctx.tmp, "c09cases.ndjson")
     write_ndjson(cf, cases)
     rf = os.path.join(ctx.tmp, "c09res.ndjson")
-    ctx.run_vh(["c09", "programs", cf, rf], timeout=3400)
+    ctx.run_vh(["c09", "programs", cf, rf], timeout=4 * 3600 if thorough else 3400)
     ctx.absorb(rf)
     ctx.cov["rule"] = ("one evaluation = one gate graph compiled under {prune on/off} x {Yao, GMW} and compared on every input with the "
                        "original graph's truth table, or one program compiled under 16 configurations ({prune} x {multiplier thresholds 0, 8, 16, "
